@@ -229,7 +229,7 @@ def write_evidence(spec, tier, seed, res, wall, nviol, extra_cov=None):
         "violations": int(nviol),
     }
     path = os.path.join(EVIDENCE_DIR, spec.prop + ".json")
-    tmp = path + ".tmp"
+    tmp = "%s.%d.tmp" % (path, os.getpid())
     with open(tmp, "w") as f:
         json.dump(ev, f, indent=1, sort_keys=False)
         f.write("\n")
@@ -344,7 +344,10 @@ def standard_check(spec, tier, seed):
     for rs, r in pairs:
         if rs.flavour == "cov":   # coverage counters of earlier runs
             for f in glob.glob(r.target.bin + "-*.gcda"):
-                os.unlink(f)
+                try:
+                    os.unlink(f)
+                except OSError:
+                    pass
     RN.execute([r for _, r in pairs], NCPU)
     collect(spec.prop, pairs, res, spec.crash_kinds, spec.any_prop)
     res.extra["pairs"] = pairs
